@@ -10,15 +10,15 @@ open Goml Goml.Sem Goml.Wt Goml.Mono
 /-- the statement at one fuel -/
 structure SoundAt (S : Sig) (P : Prog) (n : Nat) : Prop where
   expr : ∀ {e : Expr} {ρ : Env} {w : World} {Γ : TyEnv} {K : Know} {θ : Subst} {v : Val} {w' : World},
-    okE P Γ K e = true → errs S Γ e = [] → ET S P θ ρ Γ → KOk K ρ →
+    okE S P Γ K e = true → errs S Γ e = [] → ET S P θ ρ Γ → KOk K ρ →
     eval n P ρ w e = .ok v w' → VT S P v (substTy θ (getTy e))
   list : ∀ {es : List Expr} {ρ : Env} {w : World} {Γ : TyEnv} {K : Know} {θ : Subst} {vs : List Val} {w' : World},
-    okL P Γ K es = true → errsList S Γ es = [] → ET S P θ ρ Γ → KOk K ρ →
+    okL S P Γ K es = true → errsList S Γ es = [] → ET S P θ ρ Γ → KOk K ρ →
     evalList n P ρ w es = .ok vs w' → VTs S P vs (substTys θ (getTys es))
   arms : ∀ {arms : List Arm} {d : Option Expr} {ρ : Env} {w : World} {Γ : TyEnv} {K : Know} {θ : Subst}
     {sv : Option String} {st rt : Ty} {sval v : Val} {w' : World},
-    okA P Γ K sv arms = true → errsArms S Γ st rt arms = [] →
-    (∀ d0, d = some d0 → okE P Γ K d0 = true ∧ errs S Γ d0 = [] ∧ getTy d0 = rt) →
+    okA S P Γ K sv arms = true → errsArms S Γ st rt arms = [] →
+    (∀ d0, d = some d0 → okE S P Γ K d0 = true ∧ errs S Γ d0 = [] ∧ getTy d0 = rt) →
     ET S P θ ρ Γ → KOk K ρ → (∀ x, sv = some x → lookupEnv ρ x = some sval) →
     evalArms n P ρ w sval arms d = .ok v w' → VT S P v (substTy θ rt)
   app : ∀ {name : String} {g : Fn} {θ : Subst} {args : List Val} {w : World} {v : Val} {w' : World},
@@ -31,7 +31,7 @@ section
 variable {S : Sig} {P : Prog}
 
 theorem okProg_fn (hP : okProg S P = true) {name : String} {g : Fn} (h : P.findFn name = some g) :
-    errs S (bindAll g.params []) g.body = [] ∧ getTy g.body = g.ret ∧ okE P (bindAll g.params []) [] g.body = true := by
+    errs S (bindAll g.params []) g.body = [] ∧ getTy g.body = g.ret ∧ okE S P (bindAll g.params []) [] g.body = true := by
   unfold okProg at hP
   simp only [List.all_eq_true] at hP
   have hm : g ∈ P.fns := List.mem_of_find?_eq_some h
@@ -63,7 +63,7 @@ theorem step_app (hS : SigClosed S) (hP : okProg S P = true) {n : Nat} (ih : Sou
   rwa [hret] at this
 
 theorem step_list {n : Nat} (ih : SoundAt S P n) {es : List Expr} {ρ : Env} {w : World} {Γ : TyEnv} {K : Know}
-    {θ : Subst} {vs : List Val} {w' : World} (hok : okL P Γ K es = true) (herr : errsList S Γ es = [])
+    {θ : Subst} {vs : List Val} {w' : World} (hok : okL S P Γ K es = true) (herr : errsList S Γ es = [])
     (hρ : ET S P θ ρ Γ) (hK : KOk K ρ) (hev : evalList (n + 1) P ρ w es = .ok vs w') :
     VTs S P vs (substTys θ (getTys es)) := by
   cases es with
@@ -89,8 +89,8 @@ theorem step_list {n : Nat} (ih : SoundAt S P n) {es : List Expr} {ρ : Env} {w 
 
 theorem step_arms {n : Nat} (ih : SoundAt S P n) {arms : List Arm} {d : Option Expr} {ρ : Env} {w : World}
     {Γ : TyEnv} {K : Know} {θ : Subst} {sv : Option String} {st rt : Ty} {sval v : Val} {w' : World}
-    (hok : okA P Γ K sv arms = true) (herr : errsArms S Γ st rt arms = [])
-    (hd : ∀ d0, d = some d0 → okE P Γ K d0 = true ∧ errs S Γ d0 = [] ∧ getTy d0 = rt)
+    (hok : okA S P Γ K sv arms = true) (herr : errsArms S Γ st rt arms = [])
+    (hd : ∀ d0, d = some d0 → okE S P Γ K d0 = true ∧ errs S Γ d0 = [] ∧ getTy d0 = rt)
     (hρ : ET S P θ ρ Γ) (hK : KOk K ρ) (hsv : ∀ x, sv = some x → lookupEnv ρ x = some sval)
     (hev : evalArms (n + 1) P ρ w sval arms d = .ok v w') : VT S P v (substTy θ rt) := by
   cases arms with
@@ -111,7 +111,7 @@ theorem step_arms {n : Nat} (ih : SoundAt S P n) {arms : List Arm} {d : Option E
     rw [evalArms_cons_at] at hev
     by_cases hm : armMatches lhs sval = true
     · rw [if_pos hm] at hev
-      have hres : ∀ K', KOk K' ρ → okE P Γ K' body = true → VT S P v (substTy θ rt) := by
+      have hres : ∀ K', KOk K' ρ → okE S P Γ K' body = true → VT S P v (substTy θ rt) := by
         intro K' hK' hok'
         have := ih.expr hok' hbody hρ hK' hev
         rwa [hbt] at this
@@ -152,7 +152,7 @@ theorem eval_local {n : Nat} {ρ : Env} {w : World} {Γ : TyEnv} {θ : Subst} {x
 
 theorem step_expr (hS : SigClosed S) (hP : okProg S P = true) {n : Nat} (ih : SoundAt S P n)
     {e : Expr} {ρ : Env} {w : World} {Γ : TyEnv} {K : Know} {θ : Subst} {v : Val} {w' : World}
-    (hok : okE P Γ K e = true) (herr : errs S Γ e = []) (hρ : ET S P θ ρ Γ) (hK : KOk K ρ)
+    (hok : okE S P Γ K e = true) (herr : errs S Γ e = []) (hρ : ET S P θ ρ Γ) (hK : KOk K ρ)
     (hev : eval (n + 1) P ρ w e = .ok v w') : VT S P v (substTy θ (getTy e)) := by
   cases e with
   | var x t =>
@@ -194,7 +194,7 @@ theorem step_expr (hS : SigClosed S) (hP : okProg S P = true) {n : Nat} (ih : So
   | prim p =>
     rw [eval_prim] at hev
     obtain ⟨rfl, _⟩ := res_ok_inj hev
-    simp only [getTy, substTy_primTy]; exact VT_prim p
+    simp only [getTy, substTy_primTy]; exact VT_prim p (by simpa [okE] using hok)
   | tag i t => simp [okE] at hok
   | constr c t args =>
     simp only [okE, Bool.and_eq_true] at hok
@@ -257,8 +257,8 @@ theorem step_expr (hS : SigClosed S) (hP : okProg S P = true) {n : Nat} (ih : So
       simp only [getTy]
       exact ih.expr hok.2 herr.2 (.cons hvv hρ) (KOk_drop hK x vv) hev
   | matchE t s arms d =>
-    have hok' : okE P Γ K s = true ∧ okA P Γ K (scrutLocal Γ s) arms = true ∧
-        (∀ d0, d = some d0 → okE P Γ K d0 = true) := by
+    have hok' : okE S P Γ K s = true ∧ okA S P Γ K (scrutLocal Γ s) arms = true ∧
+        (∀ d0, d = some d0 → okE S P Γ K d0 = true) := by
       cases d with
       | none =>
         simp only [okE, Bool.and_eq_true] at hok
@@ -269,7 +269,7 @@ theorem step_expr (hS : SigClosed S) (hP : okProg S P = true) {n : Nat} (ih : So
     obtain ⟨hs, harms, hdok⟩ := hok'
     rw [eval_matchE] at hev
     have herr' : errs S Γ s = [] ∧ errsArms S Γ (getTy s) t arms = [] ∧
-        (∀ d0, d = some d0 → okE P Γ K d0 = true ∧ errs S Γ d0 = [] ∧ getTy d0 = t) := by
+        (∀ d0, d = some d0 → okE S P Γ K d0 = true ∧ errs S Γ d0 = [] ∧ getTy d0 = t) := by
       cases d with
       | none =>
         simp only [errs, List.append_eq_nil_iff] at herr
@@ -535,8 +535,8 @@ theorem step_expr (hS : SigClosed S) (hP : okProg S P = true) {n : Nat} (ih : So
   | toDyn tr ft t e0 => simp [okE] at hok
   | dynCall tr m t recv args => simp [okE] at hok
   | traitCall tr m t recv args =>
-    simp only [okE, Bool.and_eq_true] at hok
-    obtain ⟨⟨⟨hrecv, hargsok⟩, hconc⟩, hdisp⟩ := hok
+    simp only [okE, Bool.and_eq_true, Bool.or_eq_true] at hok
+    obtain ⟨⟨hrecv, hargsok⟩, hdisp⟩ := hok
     simp only [errs, List.append_eq_nil_iff] at herr
     rw [eval_traitCall] at hev
     cases h1 : eval n P ρ w recv with
@@ -544,30 +544,75 @@ theorem step_expr (hS : SigClosed S) (hP : okProg S P = true) {n : Nat} (ih : So
     | ok rv w1 =>
       rw [h1] at hev; simp only [Res.andThen_ok] at hev
       have hrv := ih.expr hrecv herr.1.1 hρ hK h1
-      rw [substTy_concrete θ hconc] at hrv
       cases h2 : evalList n P ρ w1 args with
       | fail f w2 => rw [h2] at hev; simp at hev
       | ok vs w2 =>
         rw [h2] at hev; simp only [Res.andThen_ok] at hev
         have hvs := ih.list hargsok herr.1.2 hρ hK h2
-        rw [valKey_of_VT hconc hrv] at hev
-        unfold dispatchOk at hdisp
-        cases hrow : P.impls.find? (fun i => i.1 == tr && i.2.1 == tyKey (getTy recv) && i.2.2.1 == m) with
-        | none => simp [hrow] at hdisp
-        | some row =>
-          simp only [hrow] at hdisp hev
-          cases hg : P.findFn row.2.2.2 with
-          | none => simp [hg] at hdisp
-          | some g =>
-            simp only [hg] at hdisp
-            have hsig := tyEq hdisp
-            unfold fnTy at hsig
-            injection hsig with hps hret
-            have key := ih.app (θ := θ) hg (by
-              rw [hps]; simp only [substTys, substTy_concrete θ hconc]
-              exact .cons hrv hvs) hev
-            rw [hret] at key
-            simpa [getTy] using key
+        rcases hdisp with ⟨hconc, hdisp⟩ | himp
+        · -- a concretely annotated receiver with a dispatch row of the annotated signature
+          rw [substTy_concrete θ hconc] at hrv
+          rw [valKey_of_VT hconc hrv] at hev
+          unfold dispatchOk at hdisp
+          cases hrow : P.impls.find? (fun i => i.1 == tr && i.2.1 == tyKey (getTy recv) && i.2.2.1 == m) with
+          | none => simp [hrow] at hdisp
+          | some row =>
+            simp only [hrow] at hdisp hev
+            cases hg : P.findFn row.2.2.2 with
+            | none => simp [hg] at hdisp
+            | some g =>
+              simp only [hg] at hdisp
+              have hsig := tyEq hdisp
+              unfold fnTy at hsig
+              injection hsig with hps hret
+              have key := ih.app (θ := θ) hg (by
+                rw [hps]; simp only [substTys, substTy_concrete θ hconc]
+                exact .cons hrv hvs) hev
+              rw [hret] at key
+              simpa [getTy] using key
+        · -- any receiver (a type parameter instantiated at run time): the dispatch-table check
+          unfold implsOk at himp
+          simp only [Bool.and_eq_true, List.all_eq_true] at himp
+          obtain ⟨hnames, hrows⟩ := himp
+          cases hrow : P.impls.find? (fun i => i.1 == tr && i.2.1 == valKey rv && i.2.2.1 == m) with
+          | none => rw [hrow] at hev; cases hev
+          | some row =>
+            simp only [hrow] at hev
+            have hmem := List.mem_of_find?_eq_some hrow
+            have hp := List.find?_some hrow
+            simp only [Bool.and_eq_true, beq_iff_eq] at hp
+            have hr := hrows row hmem
+            unfold rowOk at hr
+            cases hg : P.findFn row.2.2.2 with
+            | none => simp [hg] at hr
+            | some g =>
+              simp only [hg] at hr
+              cases hps : g.params with
+              | nil => simp [hps] at hr
+              | cons p rest =>
+                simp only [hps, Bool.and_eq_true, beq_iff_eq] at hr
+                obtain ⟨⟨hkeyable, hkey⟩, hsig⟩ := hr
+                have hτ : substTy θ (getTy recv) = p.2 :=
+                  key_determines hnames hrv hkeyable (by rw [hkey, hp.1.2])
+                have herr2 := herr.2
+                cases hmt : methodTy S tr m (getTy recv) with
+                | none => simp [hmt] at herr2
+                | some mt =>
+                  simp only [hmt, checkEq_nil] at herr2
+                  have hm2 := methodTy_subst S hS θ tr m _ _ hmt
+                  rw [hτ] at hm2
+                  rw [hp.1.1, hp.2, hm2] at hsig
+                  simp only [] at hsig
+                  have hfn := tyEq hsig
+                  rw [herr2] at hfn
+                  unfold fnTy at hfn
+                  rw [substTy_func] at hfn
+                  injection hfn with hps' hret
+                  have key := ih.app (θ := []) hg (by
+                    rw [substTys_nil, ← hps']; simp only [substTys]
+                    exact .cons hrv hvs) hev
+                  rw [substTy_nil, ← hret] at key
+                  simpa [getTy] using key
   | proj i t e0 =>
     simp only [okE] at hok
     simp only [errs, List.append_eq_nil_iff] at herr
